@@ -190,7 +190,7 @@ impl Game {
         evaluate::score(&mut self.board, &mut self.move_generator, current_turn, 0)
     }
 
-    pub fn fullmove_clock(&self) -> u8 {
+    pub fn fullmove_clock(&self) -> u16 {
         self.board.fullmove_clock()
     }
 
